@@ -1438,10 +1438,18 @@ class Normalizer:
             if recv is not None or cur is None or name not in getattr(self, "_visible", {}).get(id(cur), ()):
                 return None
             if name in self.capturing:
+                # a capturing closure reads variables of the function that defines it: where the call stands — in that function or
+                # in another function nested in it — the same names must mean the same variables (not re-bound locally)
                 pn = fi.parent.node
-                if not (getattr(cur, "name", None) == getattr(pn, "name", None) and getattr(cur, "lineno", None) == getattr(pn, "lineno", None)):
-                    return None   # a capturing closure is inlined only into its defining function
-                # … and only if the helper's own locals cannot be confused with the captured variables
+                same = getattr(cur, "name", None) == getattr(pn, "name", None) and getattr(cur, "lineno", None) == getattr(pn, "lineno", None)
+                if not same:
+                    hn = fi.node
+                    own = {x.arg for x in ast.walk(hn.args) if isinstance(x, ast.arg)} | {n.id for n in ast.walk(hn) if isinstance(n, ast.Name) and isinstance(n.ctx, ast.Store)}
+                    captured = {n.id for n in ast.walk(hn) if isinstance(n, ast.Name) and isinstance(n.ctx, ast.Load)} - own
+                    local_here = {x.arg for x in ast.walk(cur.args) if isinstance(x, ast.arg)} | {
+                        n.id for n in ast.walk(cur) if isinstance(n, ast.Name) and isinstance(n.ctx, ast.Store)}
+                    if captured & local_here:
+                        return None
         if any(isinstance(a, ast.Starred) for a in call.args) or any(k.arg is None for k in call.keywords):
             return None
         return fi, recv
